@@ -148,3 +148,28 @@ Proof.
   cbv zeta in K. cbv zeta. tauto.
 Qed.
 Print Assumptions C10_judge_checks_transform_permutation.
+
+(* ---------- pivots (kind 6): total unimodularity is invariant under ternary pivots ---------- *)
+From Cmr Require TuPivot RelPivot PivotModel.
+
+(* at the level of the definition: a pivot over Z on a +-1 entry of a TU matrix gives a TU matrix, and conversely *)
+Theorem C10_TU_closed_under_pivot : forall m n (A : matrix.matrix Z m n) r c,
+  (matrix.fun_of_matrix A r c = 1 \/ matrix.fun_of_matrix A r c = -1) ->
+  TuProofs.TUmx (TuPivot.pivmx A r c) <-> TuProofs.TUmx A.
+Proof. exact TuPivot.TUmx_pivot_iff_std. Qed.
+Print Assumptions C10_TU_closed_under_pivot.
+
+(* for the executable model of CMRchrmatTernaryPivot (PivotModel.pivot_raw followed by reduction to {-1,0,1}) *)
+Theorem C10_tu_ternary_pivot : forall m n M r c,
+  wf_mat m n M = true -> is_ternary M = true -> Nat.ltb r m = true -> Nat.ltb c n = true -> get M r c <> 0 ->
+  tu_bf m n (PivotModel.reduce 3 (PivotModel.pivot_raw m n M r c)) = tu_bf m n M.
+Proof. exact TuPivot.tu_bf_tpivot_std. Qed.
+Print Assumptions C10_tu_ternary_pivot.
+
+(* the judge verifies that M' is the ternary pivot of M and demands equal TU verdicts; the demand is a theorem *)
+Theorem C10_judge_ternary_pivot : forall rec p1 p2 m n M m' n' M' v v' rest,
+  RelProofs.rel_input rec = Some ((6, p1, p2, (m, n, M), (m', n', M'), v, v'), rest) -> judge_rel rec = 0 ->
+  tu_bf m' n' M' = tu_bf m n M /\
+  (RelProofs.is01 (vget v V_TU) -> RelProofs.is01 (vget v' V_TU) -> vget v V_TU = vget v' V_TU).
+Proof. exact RelPivot.judge_rel_kind6_verdicts. Qed.
+Print Assumptions C10_judge_ternary_pivot.
